@@ -87,14 +87,80 @@ type textRunner struct {
 	e *Env
 }
 
-func (t *textRunner) runCase(c textCase, idx int, seed int64) (*Obs, error) {
+func (t *textRunner) runCase(c textCase, idx int, seed int64) ([]*Obs, error) {
 	rng := rand.New(rand.NewSource(seed*1000003 + int64(idx)))
 	argvPath := c.Mode == "flags" || (c.Mode == "bodystdin" && c.Field == "title")
+	if c.Class == "near_limit" {
+		if argvPath {
+			return nil, nil
+		}
+		return t.runLimit(c, idx, rng)
+	}
 	s := concretise(c.Class, rng, !argvPath)
 	if argvPath && len(s) > 100*1024 {
 		return nil, nil // argv cannot carry it: case does not exist
 	}
-	root := filepath.Join(t.e.Scratch, fmt.Sprintf("text-%d", idx))
+	o, err := t.attempt(c, s, fmt.Sprintf("text-%d", idx), rng)
+	if o == nil || err != nil {
+		return nil, err
+	}
+	return []*Obs{o}, nil
+}
+
+// runLimit: class near_limit.  The largest text a store takes is found by
+// bisection (every attempt in a fresh store, every attempt an observation);
+// the sizes right at the boundary are then tried once more.  Whatever the
+// limit is, each attempt must either round-trip or be refused without a trace.
+func (t *textRunner) runLimit(c textCase, idx int, rng *rand.Rand) ([]*Obs, error) {
+	var out []*Obs
+	n := 0
+	try := func(size int) (bool, error) {
+		n++
+		o, err := t.attempt(c, strings.Repeat("x", size), fmt.Sprintf("text-%d-%d", idx, n), rng)
+		if err != nil {
+			return false, err
+		}
+		if o == nil {
+			return false, fatalf("near_limit: scaffolding failed")
+		}
+		o.Cmd["attempt"] = n
+		out = append(out, o)
+		return o.Facts["rel"] != "rejected", nil
+	}
+	lo, hi := 1024, 24*1024*1024
+	okLo, err := try(lo)
+	if err != nil {
+		return nil, err
+	}
+	okHi, err := try(hi)
+	if err != nil {
+		return nil, err
+	}
+	if okLo && !okHi {
+		for hi-lo > 1 {
+			mid := lo + (hi-lo)/2
+			ok, err := try(mid)
+			if err != nil {
+				return nil, err
+			}
+			if ok {
+				lo = mid
+			} else {
+				hi = mid
+			}
+		}
+		// once more around the boundary (timestamps vary in length by a few bytes)
+		for d := -2; d <= 3; d++ {
+			if _, err := try(lo + d); err != nil {
+				return nil, err
+			}
+		}
+	}
+	return out, nil
+}
+
+func (t *textRunner) attempt(c textCase, s string, dir string, rng *rand.Rand) (*Obs, error) {
+	root := filepath.Join(t.e.Scratch, dir)
 	st, err := newStore(t.e.Ergo, root)
 	if err != nil {
 		return nil, err
@@ -259,7 +325,7 @@ func (t *textRunner) runCase(c textCase, idx int, seed int64) (*Obs, error) {
 	o := &Obs{Tag: "e8", Cmd: Cmd{"name": "text", "mode": "json", "case": c, "sample": sample, "len": len(s)},
 		Reply: Reply{IDs: []string{}, Edges: [][2]string{}, Pruned: []string{}}, Out: outFacts{JSON: true, Values: 1},
 		Pre: map[string]any{}, Post: map[string]any{}, LogPre: []map[string]any{}, LogPost: []map[string]any{}, Gone: []string{},
-		Readable: true, ListShow: true, Facts: map[string]any{"rel": rel, "rel_after": relAfter}, Only: []string{"C17_roundtrip", "C17_stays", "C17_accepted", "C17_overlimit", "C17_blank"},
+		Readable: true, ListShow: true, Facts: map[string]any{"rel": rel, "rel_after": relAfter}, Only: []string{"C17_roundtrip", "C17_stays", "C17_accepted", "C17_overlimit", "C17_blank", "C10_text_reject"},
 		Procs: []procRec{}, Readers: []readerRec{}, After: []afterRec{},
 		Text: map[string]any{"case": c, "rel": rel, "rel_after": relAfter, "store_readable": readable, "store_unchanged": unchanged}}
 	return o, nil
@@ -287,7 +353,18 @@ func (TextCheck) Run(e *Env) (*Outcome, *Evidence, error) {
 	if thorough {
 		rounds = 3
 	} else {
-		cases = sample(cases, 600, rng)
+		// the boundary cases always run; the rest is sampled
+		var lim, rest []textCase
+		for _, c := range cases {
+			if c.Class == "near_limit" {
+				if c.Follow == "none" {
+					lim = append(lim, c)
+				}
+			} else {
+				rest = append(rest, c)
+			}
+		}
+		cases = append(lim, sample(rest, 600, rng)...)
 	}
 	tr := &textRunner{e: e}
 	var mu sync.Mutex
@@ -304,14 +381,12 @@ func (TextCheck) Run(e *Env) (*Outcome, *Evidence, error) {
 		go func() {
 			defer wg.Done()
 			for j := range ch {
-				o, err := tr.runCase(j.c, j.idx, e.Seed)
+				os_, err := tr.runCase(j.c, j.idx, e.Seed)
 				mu.Lock()
 				if err != nil && firstErr == nil {
 					firstErr = err
 				}
-				if o != nil {
-					obs = append(obs, o)
-				}
+				obs = append(obs, os_...)
 				mu.Unlock()
 			}
 		}()
@@ -358,4 +433,73 @@ func (TextCheck) Run(e *Env) (*Outcome, *Evidence, error) {
 
 func init() {
 	registry["C17"] = func() Check { return TextCheck{} }
+}
+
+// textRejects is the Extra driver of the C10 check: refusals on the text paths
+// (text at the size boundary of the log format, over it, Unicode blanks) must
+// leave no trace.  Cases come from the same TLC-printed matrix as C17's.
+func textRejects(e *Env, cov map[string]any) ([]*Obs, error) {
+	res, err := e.runTLC("text10", "MC_Text", "INIT Init\nNEXT Next\n", 1, 5*time.Minute)
+	if err != nil {
+		return nil, err
+	}
+	if !res.NoError || len(res.Lines) == 0 {
+		return nil, fatalf("TLC rejects the text model or printed no cases:\n%s", tail(res.Out, 30))
+	}
+	var cases, pick []textCase
+	if err := json.Unmarshal([]byte(res.Lines[0]), &cases); err != nil {
+		return nil, fatalf("case matrix: %v", err)
+	}
+	for _, c := range cases {
+		if c.Follow != "none" {
+			continue
+		}
+		switch c.Class {
+		case "near_limit":
+			if e.Tier == "thorough" || c.Cmd == "set" || c.Cmd == "plan" {
+				pick = append(pick, c)
+			}
+		case "over_limit", "unicode_blank":
+			if e.Tier == "thorough" || c.Mode == "json" {
+				pick = append(pick, c)
+			}
+		}
+	}
+	tr := &textRunner{e: e}
+	var mu sync.Mutex
+	var obs []*Obs
+	var firstErr error
+	var wg sync.WaitGroup
+	sem := make(chan struct{}, 12)
+	for i, c := range pick {
+		wg.Add(1)
+		sem <- struct{}{}
+		go func(i int, c textCase) {
+			defer wg.Done()
+			defer func() { <-sem }()
+			os_, err := tr.runCase(c, 100000+i, e.Seed)
+			mu.Lock()
+			defer mu.Unlock()
+			if err != nil && firstErr == nil {
+				firstErr = err
+			}
+			for _, o := range os_ {
+				o.Only = []string{"C10_text_reject"}
+				obs = append(obs, o)
+			}
+		}(i, c)
+	}
+	wg.Wait()
+	if firstErr != nil {
+		return nil, firstErr
+	}
+	rej := 0
+	for _, o := range obs {
+		if o.Facts["rel"] == "rejected" {
+			rej++
+		}
+	}
+	cov["text_path_attempts"] = len(obs)
+	cov["text_path_refusals"] = rej
+	return obs, nil
 }
